@@ -174,3 +174,24 @@ for _p in ("C09", "C10", "C11"):
 
 for _p in ("C09", "C10", "C11"):
     CHECKS[_p]["engine"] += "+udpfront"
+
+# ---- round 4 (texts only) -----------------------------------------------------
+CHECKS["C01"]["text"] += " Every configuration also sends a command to LUN 1-3; discovery runs against record data of 14 total lengths around the 16-byte chunk boundaries."
+CHECKS["C02"]["text"] += " Datagram cuts at every length; a password buffer overwritten in place between two handshakes."
+CHECKS["C03"]["text"] += " Real-transport replay (engine udpfront) of single-command sessions."
+CHECKS["C03"]["engine"] += "+udpfront"
+CHECKS["C04"]["text"] += " Histories that go on after Close; the session under test as the second one on its connection with a reply signed under the first session's K1; a suite whose integrity algorithm the library cannot compute (refusing it is fine)."
+CHECKS["C05"]["text"] += " All 255 completion codes on matching replies; DCMI pages whose totals disagree; wrappers followed by 250..494 pad bytes; a process-level watchdog turns a library call that never returns into a violation."
+CHECKS["C06"]["text"] += " Requests built by the high-level wrappers (V2Session methods, DCMI session commander, sensor readers over LUN x linearisation) and RAKP Message 1 after an Open Session Response carrying another privilege level."
+CHECKS["C07"]["text"] += " Every input also goes through the decoder registered for the layer type (gopacket.NewPacket): a rejected body must leave no such layer in the packet."
+CHECKS["C08"]["text"] += " Both wrappers are also decoded through gopacket.NewPacket from RMCP and through a DecodingLayerParser assembled like the root package's (session selector included)."
+CHECKS["C10"]["text"] += " Persistence: calls whose every attempt fails retryably, on a connection with the library's default back-off, with virtual deadlines from 5 s to 3 h (the back-off's own clock is virtual too): the call may only return once the context has expired."
+CHECKS["C11"]["text"] += " Further socket events: the request echoed back, a busy reply of another command followed by silence, a reply of command 00h of the same network function."
+CHECKS["C12"]["text"] += " The Open Session Request must be well-formed at the BMC; advertisements preceded by 3..40 bytes of other records (suite 0 among them), so chunk boundaries fall at every offset."
+CHECKS["C13"]["text"] += " Further patterns: 300 integrity-pad bytes after an authenticated-flag wrapper, replies one byte short, zero padding after the cipher-suite records."
+CHECKS["C14"]["text"] += " 8-bit names contain high bytes that form UTF-8 sequences."
+CHECKS["C16"]["text"] += " Each request of small enumerations is answered node busy once; zero padding after the records is malformed data."
+CHECKS["C17"]["text"] += " Session establishment after an earlier establishment (other connection, same options value): the negotiated suite and the proposal must be the same as without it."
+CHECKS["C18"]["text"] += " Response labels are compared by completion code, not through the library's own String(); all 255 codes; the version-agnostic Dial with live and done contexts."
+CHECKS["C19"]["text"] += " Slot 0 first closes an earlier connection twice."
+CHECKS["C20"]["text"] += " Every ID string also through the Full Sensor Record decoder; entity-instance rendering must name the range the predicates name."
